@@ -16,6 +16,7 @@ from checks import zonesim as Z
 
 PROP = "C20"
 ENGINE = "zonesim"
+HANG_WATCHDOG = True  # (sequential engine: a run that does not come back is a violation, see simkit.runner.run_guarded)
 LEVEL = "exploration"
 TIERS = {
     "quick": {"runs": 12000, "budget_s": 75},
